@@ -116,6 +116,8 @@ def plan_C01(run):
     campaign(run, "kernel-regimes", {"C01"}, lambda s, r: drivers.tm_regimes(s, r, q(run, 700, 15000)))
     campaign(run, "rate-campaign", {"C01"}, lambda s, r: drivers.rate_campaign(s, r, n))
     run.require_classes(RATE_CLASSES + ["gamma=probe", "gamma=big", "gamma=one", "gamma=zero"], "rate-campaign")
+    # behaviours of the state machine (incl. the owner reconfiguring a used model between calls) replayed on live objects
+    sequences_stage(run, {"C01"})
     return {"rule": "random rate() calls over the full numeric domain (2-8 teams x 1-8 players, five models, "
                     "configurations, every encoding of the outcome); distinct = distinct coverage-class vectors "
                     "(model, n, tie pattern, shape class, encoding, options, floor/clamp/guard regime)",
@@ -399,6 +401,8 @@ def plan_C15(run):
     mc.lattice(run, "options", ALL_KINDS, ["tau0_call", "tau0_model", "limit_call", "limit_model", "limit_off_call"], 4, 2, want={"C15", "C01"})
     campaign(run, "effopts-groups", {"C15"}, lambda s, r: drivers.effopts_groups(s, r, n))
     run.require_classes(["group:C15:effopts", "clamp", "limit", "kind=PL", "kind=BTF", "kind=BTP", "kind=TMF", "kind=TMP"], "effopts-groups")
+    # behaviours of the state machine (incl. the owner reconfiguring a used model between calls) replayed on live objects
+    sequences_stage(run, {"C15"})
     return {"rule": "M(tau=t, limit_sigma=b).rate(g) against M(other).rate(g, tau=t, limit_sigma=b), each option alone, and explicit None; "
                     "t in {0, 0.0, 1e-9 beta, default, 10 beta, random}; bit-identical results"}
 
